@@ -19,11 +19,13 @@ as `read` is what is stored when the attempt starts (true at the first read and 
 under the lock): keys stay distinct, everything published is a well-formed history from the contents
 at the start and folds to the final contents.  In particular the REMOVE carries as `old` exactly the
 value stored when it was removed (`WFChange` of a REMOVE: `old = s id`). -/
-theorem deleteLoop_spec (i : ι) (n : Nat) (read : Option μ) (t : Nat) {items : List (ι × μ)}
+theorem deleteLoop_spec (i : ι) (guard : Nat → μ → Bool) (n : Nat) (read : Option μ) (t : Nat)
+    {items : List (ι × μ)}
     (hn : NodupKeys items) (intf : List (List (Op ι μ))) (hread : read = items.lookup i) :
-    NodupKeys (deleteLoop i n read t items intf).1 ∧
-    WFHist (viewOf items) (deleteLoop i n read t items intf).2 ∧
-    fold (deleteLoop i n read t items intf).2 (viewOf items) = viewOf (deleteLoop i n read t items intf).1 := by
+    NodupKeys (deleteLoop i guard n read t items intf).1 ∧
+    WFHist (viewOf items) (deleteLoop i guard n read t items intf).2 ∧
+    fold (deleteLoop i guard n read t items intf).2 (viewOf items)
+      = viewOf (deleteLoop i guard n read t items intf).1 := by
   induction n generalizing read t items intf with
   | zero => exact ⟨hn, trivial, rfl⟩
   | succ n ih =>
@@ -32,6 +34,10 @@ theorem deleteLoop_spec (i : ι) (n : Nat) (read : Option μ) (t : Nat) {items :
     | some o =>
       have hr := runOps_spec t hn (intf.headD [])
       simp only [deleteLoop]
+      cases hg : guard n o with
+      | false => simpa using hr
+      | true =>
+      simp only [Bool.not_true, Bool.false_eq_true, if_false]
       cases ht : touched i (runOps t items (intf.headD [])).2 with
       | true =>
         simp only [if_true]
@@ -53,6 +59,55 @@ theorem deleteLoop_spec (i : ι) (n : Nat) (read : Option μ) (t : Nat) {items :
         · rw [fold_append, hr.2.2]
           simp [fold, apply, mkChange, viewOf_eraseKey]
 
+/-- `Update` under interference (code after the `fix:`): whatever lands between its read and its write
+lock, what is published is a well-formed history to the final contents: the event is an ADD exactly when
+nothing is stored at commit time, and otherwise an UPDATE whose old value is the stored one. -/
+theorem writeRetry_spec [DecidableEq μ] (empty : μ) (t : Nat) {items : List (ι × μ)} (hn : NodupKeys items)
+    (i : ι) (v : μ) (create expectAbsent : Bool) (intf : List (Op ι μ)) :
+    NodupKeys (writeRetry empty t items i v create expectAbsent intf).1 ∧
+    WFHist (viewOf items) (writeRetry empty t items i v create expectAbsent intf).2 ∧
+    fold (writeRetry empty t items i v create expectAbsent intf).2 (viewOf items)
+      = viewOf (writeRetry empty t items i v create expectAbsent intf).1 := by
+  unfold writeRetry
+  cases h1 : getForUpdate empty create expectAbsent (items.lookup i) with
+  | none => exact ⟨hn, trivial, rfl⟩
+  | some rv =>
+    have hr := runOps_spec t hn intf
+    simp only
+    cases h2 : getForUpdate empty create expectAbsent ((runOps t items intf).1.lookup i) with
+    | none => exact hr
+    | some av =>
+      simp only
+      by_cases hne : rv = av
+      · subst hne
+        simp only [ne_eq, not_true_eq_false, if_false]
+        cases hcur : (runOps t items intf).1.lookup i with
+        | none =>
+          refine ⟨NodupKeys_setKey i v hr.1, ?_, ?_⟩
+          · rw [WFHist_append, hr.2.2]
+            refine ⟨hr.2.1, ?_, trivial⟩
+            simp [WFChange, mkChange, viewOf, hcur]
+          · rw [fold_append, hr.2.2]
+            simp [fold, apply, mkChange, viewOf_setKey]
+        | some c =>
+          have hc : c = rv := by
+            rw [hcur] at h2
+            simp only [getForUpdate] at h2
+            split at h2
+            · exact absurd h2 (by simp)
+            · exact Option.some.inj h2
+          subst hc
+          refine ⟨NodupKeys_setKey i v hr.1, ?_, ?_⟩
+          · rw [WFHist_append, hr.2.2]
+            refine ⟨hr.2.1, ?_, trivial⟩
+            simp [WFChange, mkChange, viewOf, hcur]
+          · rw [fold_append, hr.2.2]
+            simp [fold, apply, mkChange, viewOf_setKey]
+      · simp only [ne_eq, hne, not_false_eq_true, if_true]
+        exact hr
+
+variable [DecidableEq μ]
+
 theorem stepAct_spec (t : Nat) {items : List (ι × μ)} (hn : NodupKeys items) (a : Act ι μ) :
     NodupKeys (stepAct t items a).1 ∧ WFHist (viewOf items) (stepAct t items a).2 ∧
     fold (stepAct t items a).2 (viewOf items) = viewOf (stepAct t items a).1 := by
@@ -69,7 +124,8 @@ theorem stepAct_spec (t : Nat) {items : List (ι × μ)} (hn : NodupKeys items) 
       rw [hev] at hs
       simp only [Option.toList_some]
       exact ⟨hs.1, ⟨hs.2.1, trivial⟩, by simpa [fold] using hs.2.2⟩
-  | deleteRetry i intf => exact deleteLoop_spec i 5 _ t hn intf rfl
+  | deleteRetry i intf guard => exact deleteLoop_spec i guard 5 _ t hn intf rfl
+  | writeRetry i v create expectAbsent intf empty => exact writeRetry_spec empty t hn i v create expectAbsent intf
 
 /-- A history of plain writes and re-entrant deletes publishes a well-formed history from the initial
 contents to the final contents. -/
